@@ -118,7 +118,7 @@ func (e *FEnc) atCall(st *State, in ssa.Instruction, name string, args []*Val, r
 		}
 		g, err := e.evalBool(env, c.Expr)
 		if err != nil {
-			if c.When == nil {
+			if c.When == nil && !(e.fn.Parent() != nil && !e.ownClause(c)) {
 				e.unsupportedOnce(fmt.Sprintf("at-call %s %q: %v", c.Pat, c.Src, err))
 				continue
 			}
@@ -361,7 +361,17 @@ afterPublish:
 				if os.Getenv("GOVC_DEBUG") != "" {
 					fmt.Fprintln(os.Stderr, "havoc", e.fn.Name(), name, e.posOf(in.Pos()))
 				}
+				priv := e.privateArrays(in)
+				oldEpoch, oldHeap := st.epoch, st.heap
 				e.havocHeap(st)
+				for _, m := range priv {
+					mv := e.vals[m]
+					if mv == nil || mv.T == "" {
+						continue
+					}
+					hn, _ := e.d.heapElem(m.Type().Underlying().(*types.Slice).Elem())
+					e.epochRefs[st.epoch] = append(e.epochRefs[st.epoch], keepRef{name: hn, ref: fmt.Sprintf("(sl_base %s)", mv.T), pred: oldEpoch, heap: oldHeap})
+				}
 			}
 			if fc != nil && len(fc.Modifies) > 0 && onlyElemsOrMaps(fc.Modifies) {
 				// the callee writes only slice elements / map entries: scalar and struct locals whose address
@@ -754,4 +764,19 @@ func (e *FEnc) havocLeakedArrays(st *State) {
 			st.cells[id] = e.newVal(a.Ty, fmt.Sprintf("hv_%s", mangle(a.Name)))
 		}
 	}
+}
+
+// ownClause: the clause belongs to the contract of the function being encoded (not to an enclosing function whose
+// call-site clauses govern this function literal). A governing clause that cannot be evaluated inside the literal —
+// it speaks about names and calls of the enclosing function — is treated as not established there.
+func (e *FEnc) ownClause(c *Clause) bool {
+	if e.fc == nil {
+		return false
+	}
+	for _, d := range e.fc.Clauses {
+		if d == c {
+			return true
+		}
+	}
+	return false
 }
